@@ -359,6 +359,11 @@ def setitem(eng, st, base, sl, val, node):
             v = to_z3(val, o.esort)
             o.term = define2(st, o.esort, lambda x, y: z3.If(z3.And(x >= 0, x < to_z3(o.shape[0], INT), y >= 0, y < to_z3(o.shape[1], INT), truth(mk.fn(x, y))), v, z3.Select(z3.Select(old, x), y)))
             return
+        if kind[0] == 'int' and not isinstance(val, (Ref, Row, Mat)):
+            bounds(eng, st, kind[1], o.shape[0], 'storerow:%s' % ast.unparse(node)[:24])
+            v = to_z3(val, o.esort)
+            o.term = z3.Store(old, kind[1], define1(st, o.esort, lambda yy: z3.If(z3.And(yy >= 0, yy < to_z3(o.shape[1], INT)), v, z3.Select(z3.Select(old, kind[1]), yy))))
+            return
         if kind[0] == 'pair':
             i_ref, j_ref = kind[3]
             mi, mj = st.heap[i_ref.oid].meta, st.heap[j_ref.oid].meta
@@ -627,6 +632,8 @@ def np_zeros(eng, st, args, kw, node):
     es = REAL
     if isinstance(dt, Opaque) and dt.kind == 'builtin' and dt.name in ('int', 'bool'):
         es = INT if dt.name == 'int' else BOOL
+    if isinstance(dt, str) and dt in ('int', 'bool'):
+        es = INT if dt == 'int' else BOOL
     zero = to_z3(0, es) if es != BOOL else z3.BoolVal(False)
     if isinstance(sh, (tuple, list)) and len(sh) == 2:
         return alloc(st, 2, z3.K(INT, z3.K(INT, zero)), (sh[0], sh[1]), es)
